@@ -388,3 +388,55 @@ func bigBridge(fn *ssa.Function) externalFn {
 		return tup
 	}
 }
+
+func init() {
+	// crypto.DecomposePQ (Pollard's rho, tens of thousands of big-number iterations) on a concrete
+	// pq: factored natively. Used by the key-exchange harnesses, which do not check factorisation.
+	externals["github.com/gotd/td/crypto.DecomposePQ"] = func(fr *frame, args []value) value {
+		pq, ok := bigToNative(args[0])
+		if !ok || pq == nil {
+			panic(unsupported("crypto.DecomposePQ on a symbolic value"))
+		}
+		mk := func(n *big.Int) value {
+			p := new(value)
+			bigFromNative(n, p)
+			return p
+		}
+		nilErr := iface{}
+		if !pq.IsUint64() || pq.Uint64() < 4 {
+			panic(unsupported("crypto.DecomposePQ model: pq out of range"))
+		}
+		n := pq.Uint64()
+		// Pollard rho (Brent) natively
+		f := func(x, c uint64) uint64 {
+			return new(big.Int).Mod(new(big.Int).Add(new(big.Int).Mul(new(big.Int).SetUint64(x), new(big.Int).SetUint64(x)), new(big.Int).SetUint64(c)), pq).Uint64()
+		}
+		var d uint64 = 1
+		if n%2 == 0 {
+			d = 2
+		}
+		for c := uint64(1); d == 1 || d == n; c++ {
+			x, y := uint64(2), uint64(2)
+			d = 1
+			for d == 1 {
+				x = f(x, c)
+				y = f(f(y, c), c)
+				diff := x - y
+				if y > x {
+					diff = y - x
+				}
+				if diff == 0 {
+					d = n
+					break
+				}
+				d = new(big.Int).GCD(nil, nil, new(big.Int).SetUint64(diff), pq).Uint64()
+			}
+		}
+		p1 := new(big.Int).SetUint64(d)
+		q1 := new(big.Int).Div(pq, p1)
+		if p1.Cmp(q1) > 0 {
+			p1, q1 = q1, p1
+		}
+		return tuple{mk(p1), mk(q1), nilErr}
+	}
+}
